@@ -342,8 +342,9 @@ class Alphabet:
         if 'verb' not in self.cont or not ctx[3]:
             return []
         out = []
-        for vname, body in (('verbatim', ' $ '), ('lstlisting', '\\' + self.N.x + '{'), ('Verbatim', 'a}\n%c\n'),
-                            ('listing', '\n'), ('verbatimtab', '$' + self.N.a)):
+        # every built-in name, each with a body that cannot be read as ordinary LaTeX without showing
+        for vname, body in (('Verbatim', ' $ '), ('listing', '\\' + self.N.x + '{'), ('verbatim', 'a}\n%c\n'),
+                            ('lstlisting', '\n'), ('verbatimtab', '$' + self.N.a), ('verbatim', '\\' + self.N.x + ' {')):
             out.append(('\\begin{%s}%s\\end{%s}' % (vname, body, vname),
                         (('E', vname, (), (('T', body),)),), 'env'))
         return out
